@@ -428,6 +428,9 @@ func (a *Analyzer) Feed(r *ev.Rec) {
 		a.stat("faults")
 		a.stat("fault:" + r.Op)
 		a.shape("f:" + r.Op)
+		if strings.HasPrefix(r.Op, "install-crash at ") || strings.HasPrefix(r.Op, "bootstrap-crash at ") || strings.HasPrefix(r.Op, "directed-crash at ") {
+			a.stat("directed-crash-windows")
+		}
 	case "faults-stopped":
 		a.faultsStopped = true
 	case "converged":
@@ -649,6 +652,11 @@ func (a *Analyzer) onOpen(n *nodeState, r *ev.Rec) {
 		// appended but never acknowledged may be gone after any restart)
 		_ = oldLast
 		// contiguous with snapshot
+		if st.LogLast != st.Last {
+			// the position at which the log file appends differs from the index
+			// the node gives its next entry
+			a.find("C10", "log-position-differs-from-last-index", fmt.Sprintf("log-position-differs-from-last-index:%s", n.crashPoint), r.Q, "%s after restart: the log file ends at %d but the node's last index is %d (first-1=%d snapshot=%d, crash point %q)", n.key, st.LogLast, st.Last, st.Prev, st.Snap, n.crashPoint)
+		}
 		if st.Prev > st.Snap || st.Snap > st.Last {
 			a.find("C10", "log-not-contiguous-with-snapshot", fmt.Sprintf("log-not-contiguous-with-snapshot:%s", n.crashPoint), r.Q, "%s after restart: first-1=%d snapshot=%d last=%d (crash point %q)", n.key, st.Prev, st.Snap, st.Last, n.crashPoint)
 		}
